@@ -420,6 +420,25 @@ KindAct(j) ==
 SimKinds == IF CanReplay THEN {40} \cup (IF RE(1..3) = 1 THEN {RE(1..NKinds)} ELSE {})
             ELSE IF AtReplayEnd THEN {7} \cup (IF RE(1..3) = 1 THEN {RE(1..6)} ELSE {})
             ELSE {RE(1..NKinds), RE(1..NKinds), RE(1..NKinds), RE(1..NKinds), 30}
+\* Tiny-tree simulation (C30): a version whose whole tree is a single leaf, one or more UNCHANGED versions after it
+\* (SaveVersion without writes), versions that add keys (the old leaf lives on as a child), then the old versions
+\* deleted one per call (as a store does at every commit), then anything; all retained versions are read and
+\* proven after every prune.
+TinyAct(j) ==
+  CASE j = 101 -> \E k \in {RE(Keys)}, v \in {RE(Vals)} : Set(k, v)
+    [] j \in {102, 103, 105} -> SaveVersion
+    [] j = 104 -> \E k \in {RE({x \in Keys : work[x] = 0} \cup {1})}, v \in {RE(Vals)} : Set(k, v)
+    [] j = 106 -> Prune(first)
+    [] OTHER -> KindAct(j)
+TinyNext(j) ==
+  CASE j = 101 -> {102}
+    [] j = 102 -> {103}
+    [] j = 103 -> IF RE(1..2) = 1 /\ latest < MaxVer - 3 THEN {103} ELSE {104}
+    [] j = 104 -> {105}
+    [] j = 105 -> IF RE(1..3) = 1 /\ latest < MaxVer - 1 THEN {104} ELSE {106}
+    [] j = 106 -> IF first < latest /\ RE(1..4) <= 3 THEN {106} ELSE SimKinds
+    [] OTHER -> SimKinds
+NextTiny == \E j \in (IF n = 1 THEN {101} ELSE kinds) : TinyAct(j) /\ kinds' = TinyNext(j)'
 \* universes of 1000 keys and more start with a fill of all keys (ascending: 90/10 splits, > 32 nearly full
 \* leaves; descending: 50/50 splits, half-full leaves), so that the root is an inner node over inner nodes
 \* and the later range removals merge and redistribute at both levels
@@ -565,6 +584,7 @@ NextReadsF == NextReads /\ UNCHANGED <<scvars, kinds>>
 Finish == n = MaxLen - 1 /\ UNCHANGED svars /\ Log([act |-> "Finish", reply |-> "ok"])
 NextSimF == (IF n < MaxLen - 1 THEN NextSim ELSE (Finish /\ UNCHANGED kinds)) /\ UNCHANGED scvars
 NextSkelF == (IF n < MaxLen - 1 THEN NextSkel ELSE Finish) /\ UNCHANGED <<scvars, kinds>>
+NextTinyF == (IF n < MaxLen - 1 THEN NextTiny ELSE (Finish /\ UNCHANGED kinds)) /\ UNCHANGED scvars
 NextShapeF == (IF n < MaxLen - 1 THEN NextShape ELSE (Finish /\ UNCHANGED kinds)) /\ UNCHANGED scvars
 NextShapeSkelF == (IF n < MaxLen - 1 THEN NextShapeSkel ELSE (Finish /\ UNCHANGED kinds)) /\ UNCHANGED scvars
 Spec == Init /\ [][NextF]_<<vars, hist, scvars, kinds>>
